@@ -6,6 +6,10 @@ _NOTE = ("Bounded: holds for all values within the bounds recorded in the eviden
 _TECH = "symbolic execution of the real Python code on z3-backed proxy values (BV64/Float64/Real), branch decisions and obligations decided by z3, counterexamples replayed concretely"
 
 CLAIMS = {
+    "C01": {
+        "text": "Bounded symbolic model checking of the real socket send path on a virtual-time loop: 2-3 (quick) / up to 4 (thorough) sends at solver-chosen instants with solver-chosen lifetimes against a console that starts accepting at a solver-chosen instant (and optional back-pressure); every ordering class of the instants is one path; on each the bytes at the console must equal, frame for frame and in acceptance order, the reference framing of exactly the submitted messages that were within lifetime; write triples contiguous; all 36 message classes rotate through the sends; packet counter by one inductive step over a symbolic counter value plus a concrete 260-send run.",
+        "note": _NOTE, "technique": _TECH, "design_ref": "DESIGN.md section 6 C01",
+    },
     "C16": {
         "text": "Bounded symbolic model checking of one inductive step of the pending-message buffer through the public send API: from q = 0..10 held messages with free (solver-chosen) expiries and a free clock, one more send with a free policy; expired-first purge, capacity check against the module's constant, overflow error leaving held entries untouched, and the exact frames written after the link comes up are compared with reference semantics on every ordering class of the instants (z3 Real).",
         "note": _NOTE, "technique": _TECH, "design_ref": "DESIGN.md section 6 C16",
